@@ -79,9 +79,11 @@ class R:
 
 
 class Model:
-    def __init__(self, prog, until=None, interacting=None):
+    def __init__(self, prog, until=None, interacting=None, hand_times=()):
         if interacting is not None:
             self.INTERACTING = set(interacting)
+        self.hand_times = list(hand_times)
+        self.hand_calls = 0
         self.prog = prog
         self.now = F(0)
         self.trace = []
@@ -192,6 +194,24 @@ class Model:
             c = self.clocks[op[1]]
             b = c.secs2beats(now)
             c.base_secs, c.base_beats, c.tempo = fr(now), b, fr(op[2])
+        elif k == 'etempo':
+            # (NRT: elapsed time is the logical time) same re-basing as tempo
+            c = self.clocks[op[1]]
+            c.base_beats = c.secs2beats(now)
+            c.base_secs = fr(now)
+            c.tempo = fr(op[2])
+        elif k == 'busy':
+            pass        # physical time only
+        elif k == 'next':
+            # stepped by hand from the main thread, whose logical time is
+            # the physical time of the call (given by the harness in RT)
+            i = self.hand_calls
+            self.hand_calls += 1
+            t = fr(self.hand_times[i]) if i < len(self.hand_times) else now
+            r = self.routines[op[1]]
+            if r.state in ('init', 'suspended'):
+                r.clock = 'sys'
+                self.run_routine(r, t)
         elif k == 'beats':
             c = self.clocks[op[1]]
             c.base_secs, c.base_beats = fr(now), fr(op[2])
@@ -353,8 +373,8 @@ class Model:
     # ops by which a routine changes what other routines observe; two
     # routines that only log / wait / send / wait on conditions do not
     # influence one another, whatever their relative order
-    INTERACTING = {'pause', 'resume', 'stop', 'tempo', 'beats', 'beats_add',
-                   'meter',
+    INTERACTING = {'pause', 'resume', 'stop', 'tempo', 'etempo', 'beats',
+                   'beats_add', 'meter',
                    'play', 'sched', 'csignal', 'ctest', 'cunhang', 'fset'}
 
     def interacts(self, rname):
